@@ -27,9 +27,10 @@ def mc_all(ctx, q):
         cfg = ("SPECIFICATION Spec\nCONSTANTS\n  N = %d\n  Num = %d\n  FailAt = %d\nINVARIANTS\n  Ordered\n  NoUseAfterPut\n  ClosedMeansFlushed\n"
                "  WorkersNeverBlockedAfterClose\nPROPERTY EventuallyAllDone\n" % (n, num, f))
         ctx.mc("PipelineW", cfg_text=cfg, timeout=1800)
-    for n, num, df, sf in ((3, 2, 0, 0), (4, 2, 2, 0), (4, 2, 0, 3), (3, 2, 0, 4), (0, 2, 0, 0)) + (() if q else ((5, 2, 3, 0), (4, 3, 4, 0), (5, 3, 1, 4), (6, 2, 0, 0))):
-        cfg = ("SPECIFICATION Spec\nCONSTANTS\n  N = %d\n  Num = %d\n  DecodeFailAt = %d\n  SourceFailAt = %d\nINVARIANTS\n  Ordered\n  FinalResult\n"
-               "  NoGoroutineLeft\nPROPERTY EventuallyAllDone\n" % (n, num, df, sf))
+    for n, num, df, sf, em in ((3, 2, 0, 0, "{}"), (4, 2, 2, 0, "{}"), (4, 2, 0, 3, "{2}"), (3, 2, 0, 4, "{}"), (0, 2, 0, 0, "{}"), (3, 2, 0, 0, "{3}"), (4, 2, 3, 0, "{2}")) + \
+            (() if q else ((5, 2, 3, 0, "{}"), (4, 3, 4, 0, "{1}"), (5, 3, 1, 4, "{}"), (6, 2, 0, 0, "{6}"))):
+        cfg = ("SPECIFICATION Spec\nCONSTANTS\n  N = %d\n  Num = %d\n  DecodeFailAt = %d\n  SourceFailAt = %d\n  EmptyBlocks = %s\nINVARIANTS\n  Ordered\n  FinalResult\n"
+               "  NoGoroutineLeft\nPROPERTY EventuallyAllDone\n" % (n, num, df, sf, em))
         ctx.mc("PipelineR", cfg_text=cfg, timeout=1800)
 
 
@@ -94,6 +95,11 @@ def make_cases(ctx, rnd):
             c["ops"] = [[2, rnd.randrange(40, 2000 + 100 * nb), rnd.randrange(8)]]
         elif k == 2:      # a source error at some call
             c["cfg"]["failat"] = rnd.randrange(1, 3 * nb + 4)
+        elif k == 3:      # frames containing zero-length blocks (ReadFrom of a multiple of the block size; Flush-cut blocks)
+            c["input"]["len"] = nb * B
+            c["calls"] = rnd.choice([[{"op": "readfrom", "n": 0}, {"op": "close"}],
+                                     [{"op": "write", "n": B}, {"op": "flush"}, {"op": "readfrom", "n": 0}, {"op": "close"}] if False else
+                                     [{"op": "readfrom", "n": 0}, {"op": "close"}]])
         if i % 6 == 0:
             c["slowio"] = rnd.choice([50, 300])
         cases.append(c)
@@ -116,7 +122,7 @@ def to_trace(c, r, race=""):
         sent = next((e[2] for e in events if e[1] == "p.closeq"), None)
         ren = lambda ch: NMAX + 1 if ch == sent else ch
         data_of, block_of = {}, {}
-        for seq, site, ch, buf in events:
+        for seq, site, ch, buf, ln in events:
             if site == "pool.get":
                 continue
             if site == "pool.put":
@@ -136,10 +142,10 @@ def to_trace(c, r, race=""):
     else:
         sent = next((e[2] for e in events if e[1] == "r.finq"), None)
         ren = lambda ch: NMAX + 1 if ch == sent else ch
-        for seq, site, ch, buf in events:
+        for seq, site, ch, buf, ln in events:
             if site.startswith("pool."):
                 continue
-            ev.append({"ev": site, "case": c["id"], "ch": ren(ch), "buf": buf})
+            ev.append({"ev": site, "case": c["id"], "ch": ren(ch), "buf": buf, "len": ln})
         ev.append(dict(base, ev="pend", case=c["id"], outcome=r["outcome"], same=r["same"], prefixok=r["prefixok"], mutated=r["mutated"]))
     return ev
 
@@ -239,8 +245,12 @@ def confirm_death(ctx, b, d, c, env):
     cp = os.path.join(d, "death.ndjson")
     vlib.write_ndjson(cp, [c])
     for attempt in range(10):
-        p = subprocess.run([b, "pipe-run", "--cases", cp, "--out", os.path.join(d, "death-out.ndjson"), "--watchdog", "90s"],
-                           env=dict(vlib.GOENV, **env), stdout=subprocess.PIPE, stderr=subprocess.PIPE, text=True, timeout=900)
+        try:
+            p = subprocess.run([b, "pipe-run", "--cases", cp, "--out", os.path.join(d, "death-out.ndjson"), "--watchdog", "60s"],
+                               env=dict(vlib.GOENV, **env), stdout=subprocess.PIPE, stderr=subprocess.PIPE, text=True, timeout=150)
+        except subprocess.TimeoutExpired:
+            ctx.violation("C08:%s:process-stuck" % c["kind"], "the run never returns (not even the watchdog path)", {"kind": "c08-death", "case": c, "stderr": "timeout"})
+            return
         if p.returncode != 0:
             race = "DATA RACE" in p.stderr
             key = "C08:%s:%s" % (c["kind"], "data-race" if race else "process-died")
